@@ -17,12 +17,18 @@ class Derive:
         self.params = set()
         self.ops = set()
         self.locals = set()
+        self.skip_index = False
+        self.paths = set()  # field paths of the places read, e.g. ("position", "#0")
+        self.strs = set()  # string literals reaching the value (arguments of the calls it is computed from)
 
     def __repr__(self):
         return f"Derive(fields={sorted(self.names)}, calls={sorted(c.split('::')[-1] for c in self.calls)}, consts={sorted(self.consts)}, ops={sorted(self.ops)})"
 
 
 def _place(d, p, ix, depth):
+    path = tuple((pr.get("n") if "n" in pr else f"#{pr['f']}") for pr in p["p"] if isinstance(pr, dict) and "f" in pr)
+    if path:
+        d.paths.add(path)
     for pr in p["p"]:
         if isinstance(pr, dict) and "n" in pr:
             d.fields.add((pr.get("a"), pr["n"]))
@@ -44,8 +50,12 @@ def _local(d, l, ix, depth):
     for kind, _bi, _si, st in ix.defs.get(l, []):
         if kind == "call":
             t = st
-            d.calls.add(t.get("res") or (t["f"].get("k") or {}).get("fn") or "?")
-            for a in t["args"]:
+            c = t.get("res") or (t["f"].get("k") or {}).get("fn") or "?"
+            d.calls.add(c)
+            args = t["args"]
+            if d.skip_index and len(args) == 2 and (c.endswith("::index") or c.endswith("::index_mut") or c.endswith("<impl [T]>::get")):
+                args = args[:1]  # the element's provenance is its container; the index is accounted for separately
+            for a in args:
                 _op(d, a, ix, depth + 1)
         else:
             rv = st.get("rv")
@@ -72,13 +82,18 @@ def _op(d, o, ix, depth):
     if v is not None:
         d.consts.add(v)
         return
+    k = o.get("k") if isinstance(o, dict) else None
+    if isinstance(k, dict) and "str" in k:
+        d.strs.add(k["str"])
+        return
     p = op_place(o)
     if p is not None:
         _place(d, p, ix, depth)
 
 
-def derive(ix, operand):
+def derive(ix, operand, skip_index=False):
     d = Derive()
+    d.skip_index = skip_index
     _op(d, operand, ix, 0)
     return d
 
